@@ -42,4 +42,45 @@ Qed.
 Definition keep_true (l:list value) : list value := flat_map (fun x => match app [x] with VBool true => [x] | _ => [] end) l.
 Lemma keep_true_combine : forall l, flat_map (fun p => match snd p with VBool true => [fst p] | _ => [] end) (combine l (map (fun x => app [x]) l)) = keep_true l.
 Proof. induction l as [|x l IH]; cbn [map combine flat_map keep_true]; [reflexivity|]. cbn [fst snd]. fold (keep_true l). rewrite IH. reflexivity. Qed.
+(* the filter built-in after its arguments are taken: one application per element in list order, every answer must be a Boolean, the kept elements
+   are the ORIGINAL (unevaluated) elements in their original order *)
+Definition filter_core (l:list value) : Comp value :=
+  ys <- map_call (fun x => PApply f sp [x]) l ;; bs <- map_strict ys ;; check_type sp bs is_bool ;;;
+  Ret (VList (flat_map (fun p => match snd p with VBool true => [fst p] | _ => [] end) (combine l bs))).
+Lemma map_strict_bools : forall l ip h w, Forall (fun v => is_bool v = true) l -> runG rec (list value) ip h w (map_strict l) = DoneG h w (inl l) 0.
+Proof.
+  induction l as [|x l IH]; intros ip h w H; cbn [map_strict]; [reflexivity|]. inversion H as [|? ? Hx Hl]; subst.
+  destruct x; try discriminate Hx. unfold force. cbn [bind runG]. rewrite runG_bind, (IH ip h w Hl). reflexivity.
+Qed.
+Theorem filter_in_order l ip h w : Forall (fun x => is_bool (app [x]) = true) l ->
+  runG rec value ip h w (filter_core l) = DoneG h w (inl (VList (keep_true l))) 0.
+Proof.
+  intros H. unfold filter_core. rewrite runG_bind, map_in_order. cbn [thenG upddG]. rewrite runG_bind.
+  assert (B : Forall (fun v => is_bool v = true) (map (fun x => app [x]) l)) by (rewrite Forall_map; exact H).
+  rewrite (map_strict_bools _ ip h w B). cbn [thenG upddG]. unfold check_type.
+  assert (E : forallb is_bool (map (fun x => app [x]) l) = true) by (apply forallb_forall; intros v Hv; rewrite Forall_forall in B; auto).
+  rewrite E. cbn [bind runG]. rewrite keep_true_combine. reflexivity.
+Qed.
+(* an answer that is not a Boolean is a type error, whatever the other answers are *)
+Theorem filter_needs_booleans l ip h w : existsb (fun x => negb (is_bool (app [x])) && negb (match app [x] with VThunk _ => true | _ => false end)) l = true ->
+  Forall (fun x => match app [x] with VThunk _ => False | _ => True end) l ->
+  runG rec value ip h w (filter_core l) = DoneG h w (inr (mkerr c_type sp)) 0.
+Proof.
+  intros Hb Hn. unfold filter_core. rewrite runG_bind, map_in_order. cbn [thenG upddG]. rewrite runG_bind.
+  assert (S : forall m ip h w, Forall (fun v => match v with VThunk _ => False | _ => True end) m -> runG rec (list value) ip h w (map_strict m) = DoneG h w (inl m) 0).
+  { induction m as [|x m IH]; intros ip0 h0 w0 Hm; cbn [map_strict]; [reflexivity|]. inversion Hm as [|? ? Hx Hl]; subst.
+    unfold force. destruct x; try contradiction; cbn [bind runG]; rewrite runG_bind, (IH ip0 h0 w0 Hl); reflexivity. }
+  rewrite S by (rewrite Forall_map; exact Hn). cbn [thenG upddG]. unfold check_type.
+  assert (E : forallb is_bool (map (fun x => app [x]) l) = false).
+  { apply existsb_exists in Hb. destruct Hb as (x & Hin & Hx). apply andb_true_iff in Hx. destruct Hx as [Hx _]. apply negb_true_iff in Hx.
+    apply not_true_is_false. intros F. rewrite forallb_forall in F. specialize (F (app [x]) (in_map _ _ _ Hin)). congruence. }
+  rewrite E. reflexivity.
+Qed.
 End SeqSpec.
+
+(* the built-in ㅅㅂ IS that core once its two arguments are taken (the list forced, the function position resolved) *)
+Lemma bi_filter_is_core sp a fv :
+  bi_filter sp [a; fv] =
+  (check_arity sp 2 [2%nat] ;;; sq <- force a ;; check_type sp [sq] is_list ;;; f <- functional sp fv false ;;
+   match sq with VList l => filter_core f sp l | _ => raise c_type sp end).
+Proof. reflexivity. Qed.
